@@ -41,7 +41,11 @@ RULE = ("Options = every entry of behave.configuration.OPTIONS that has a positi
         "file, -D, both with different values, two config files, two files + -D} x {--junit, junit in file, off} x "
         "{summary on, off}: the attribute of the constructed reporter/formatter object must follow the precedence "
         "rule, config.reporters must contain exactly the enabled reporters, update_userdata() keeps -D on top; "
-        "(6) ordered pairs of build specs: Configuration A then B in one process without "
+        "(5c) names are case-sensitive and preserved exactly: families Mixed/UPPER/lower of one userdata name (ASCII "
+        "and Cyrillic), names with '.', '-', '_' (and ':' in TOML/-D), formatter and runner alias families, in every "
+        "file format x {file only (one spelling / all spellings together), -D only, file x -D 3x3, two files 3x3} "
+        "(thorough: x ini delimiters '=', ' = ', tab, ':'); -D overrides the same spelling only, getint finds the "
+        "exact spelling, -f/-r accept the alias as spelled; (6) ordered pairs of build specs: Configuration A then B in one process without "
         "reset, B must equal a fresh B. In every build ALL options are compared (mentioned ones with the precedence "
         "rule, all others with the documented default), except options rewritten by an active documented mode switch "
         "(--wip, --quiet, --steps-catalog, --junit). A case is non-trivial (distinct by sweep, options, placement, "
@@ -53,7 +57,8 @@ ASSUMPTIONS = [
     "precedence BETWEEN two config files that assign the same option is not stated: either value is accepted",
     "append options given in file and on the command line: 'file values then command-line values' and 'command-line "
     "values only' are both accepted (format: only the former, it is documented); tags: command line replaces file",
-    "sections [behave.formatters]/[behave.runners] and argparse prefix abbreviations are not covered",
+    "sections [behave.formatters]/[behave.runners]: only the alias names (exact, case-sensitive) are checked; "
+    "argparse prefix abbreviations are not covered",
     "subsets larger than 3 options are covered only by the all-options-at-once cases",
     "whether an already constructed reporter follows config.update_userdata() is not stated: observed, not judged",
 ]
@@ -217,6 +222,8 @@ def init_worker():
     _SNAP["log"] = (list(root.handlers), root.level)
     _SNAP["env"] = {k: os.environ.get(k) for k in ("HOME", "BEHAVE_STAGE", "BEHAVE_COLOR", "APPDATA")}
     _SNAP["cwd"] = os.getcwd()
+    from behave.formatter import _registry as _freg
+    _SNAP["formatters"] = set(dict.keys(_freg._formatter_registry))
 
 
 def reset_state():
@@ -234,6 +241,9 @@ def reset_state():
                 TagExpressionProtocol.use(TagExpressionProtocol.DEFAULT)
     else:
         TagExpressionProtocol.use(_SNAP["tep"])
+    from behave.formatter import _registry as _freg
+    for k in [k for k in dict.keys(_freg._formatter_registry) if k not in _SNAP["formatters"]]:
+        dict.pop(_freg._formatter_registry, k, None)       # aliases registered by [behave.formatters]
     root = logging.getLogger()
     root.handlers[:] = _SNAP["log"][0]
     root.setLevel(_SNAP["log"][1])
@@ -273,6 +283,11 @@ def render_file(fspec):
             lines += ["", "[tool.behave.userdata]"]
             for k, v in ud:
                 lines.append("%s = %s" % (json.dumps(k), json.dumps(v)))
+        for sect, key in (("formatters", "fa"), ("runners", "ra")):
+            if fspec.get(key):
+                lines += ["", "[tool.behave.%s]" % sect]
+                for k, v in fspec[key]:
+                    lines.append("%s = %s" % (json.dumps(k), json.dumps(v)))
     else:
         lines = []
         if name in ("setup.cfg", "tox.ini"):
@@ -280,10 +295,16 @@ def render_file(fspec):
         lines.append("[behave]")
         for dest, val in opts:
             lines.append("%s = %s" % (dest, ini_value(OPTS[dest], val, fspec.get("boolsp", 0))))
+        sep = fspec.get("sep", " = ")
         if ud is not None:
             lines += ["", "[behave.userdata]"]
             for k, v in ud:
-                lines.append("%s = %s" % (k, v))
+                lines.append("%s%s%s" % (k, sep, v))
+        for sect, key in (("formatters", "fa"), ("runners", "ra")):
+            if fspec.get(key):
+                lines += ["", "[behave.%s]" % sect]
+                for k, v in fspec[key]:
+                    lines.append("%s%s%s" % (k, sep, v))
     return "\n".join(lines) + "\n"
 
 
@@ -384,7 +405,7 @@ def build(spec):
     obs = {}
     try:
         for f in spec.get("files", ()):
-            with open(os.path.join(sc.dir_of(f["where"]), f["name"]), "w") as fh:
+            with open(os.path.join(sc.dir_of(f["where"]), f["name"]), "w", encoding="utf-8") as fh:
                 fh.write(render_file(f))
         args = render_cmd(spec.get("cmd", ()), spec.get("ud_cmd", ()))
         obs["args"] = tuple(args)
@@ -407,6 +428,9 @@ def build(spec):
             obs["userdata"] = ({norm_value(k, sc.root): (norm_value(x, sc.root) if isinstance(x, str) else x)
                                 for k, x in cfg.userdata.items()} if cfg.userdata is not None else None)
             obs["userdata_type"] = type(cfg.userdata).__name__
+            obs["more_formatters"] = dict(cfg.more_formatters or {})
+            obs["more_runners"] = dict(cfg.more_runners or {})
+            obs["runner_aliases"] = dict(cfg.runner_aliases or {})
             obs["steps_dir"] = cfg.steps_dir
             obs["environment_file"] = cfg.environment_file
             obs["name_re"] = norm_value(cfg.name_re, sc.root)
@@ -431,8 +455,9 @@ def digestable(obs):
     d = {k: v for k, v in obs.items() if k not in ("cfg", "abs")}
     if "opts" in d:
         d["opts"] = sorted(d["opts"].items())
-    if d.get("userdata") is not None:
-        d["userdata"] = sorted((repr(k), repr(v)) for k, v in d["userdata"].items())
+    for key in ("userdata", "more_formatters", "more_runners", "runner_aliases"):
+        if d.get(key) is not None:
+            d[key] = sorted((repr(k), repr(v)) for k, v in d[key].items())
     return sorted(d.items())
 
 
@@ -716,7 +741,7 @@ def trigger_class(spec):
         dest, val, sp = cmd[-1]
         if OPTS[dest]["bare"] and sp[0] == "flag" and args and args[-1] == sp[1] and sp[1] in OPTS[dest]["pos"]:
             return "bare-optional-value-last-argument"
-    has_file = any(f.get("opts") or f.get("ud") for f in spec.get("files", ()))
+    has_file = any(f.get("opts") or f.get("ud") or f.get("fa") or f.get("ra") for f in spec.get("files", ()))
     has_cmd = bool(cmd or spec.get("ud_cmd"))
     return {(False, False): "no-options", (True, False): "file:" + file_kinds(spec),
             (False, True): "cmd", (True, True): "file+cmd"}[(has_file, has_cmd)]
@@ -1102,6 +1127,178 @@ def run_consumer(case):
     dg = (digestable(obs), repr(got), after, repr(getattr(objs[0], attr, None)) if objs else None)
     reset_state()
     return {"v": v, "nt": nt, "out": ("consumer", cls, attr, repr(got), clause), "dg": dg}
+
+
+# ---- names are case-sensitive and preserved exactly -----------------------------------------------------
+# features/userdata.feature ("Loaded user-data from configuration should have case-sensitive keys"): a name keeps
+# its spelling through every file format; two names that differ only in case are different names; -D overrides the
+# file value of the SAME spelled name only; the typed getters find the exactly spelled name.  One representative
+# per rewriting a parser could apply to a name: case folding, blanks/tabs around the delimiter, '.', '-', '_',
+# ':' (where the file syntax allows it) and non-ASCII letters with case.
+NAME_FAMILIES = (("Browser", "BROWSER", "browser"), ("maxRetry", "MAXRETRY", "maxretry"),
+                 ("\u041a\u043b\u044e\u0447", "\u041a\u041b\u042e\u0427", "\u043a\u043b\u044e\u0447"))
+PUNCT_NAMES = ("Ns.Key-x_Y", "ns.key-x_y", "A_b.C-d")
+TOML_ONLY_NAMES = ("Ns:Key", "ns:key")             # ':' is a delimiter in ini files; legal in a quoted TOML key and -D
+FMT_FAMILY = (("MyFmt", "behave.formatter.plain:PlainFormatter"), ("MYFMT", "behave.formatter.json:JSONFormatter"),
+              ("myfmt", "behave.formatter.progress:ScenarioProgressFormatter"))
+RUN_FAMILY = (("MyRunner", "behave.runner:Runner"), ("MYRUNNER", "pkg_a.mod:RunnerA"), ("myrunner", "pkg_b:RunnerB"))
+
+
+def name_class(name):
+    if any(ord(c) > 127 for c in name):
+        base = "unicode-"
+    elif any(c in name for c in ".-_:"):
+        base = "punct-"
+    else:
+        base = ""
+    if name == name.lower():
+        return base + "lower"
+    if name == name.upper():
+        return base + "UPPER"
+    return base + "Mixed"
+
+
+def names_filekind(spec):
+    ks = set("toml" if f["name"] == TOML_NAME else "ini" for f in spec.get("files", ()))
+    return "ini" if "ini" in ks else ("toml" if ks else "-")
+
+
+def rewrite_class(want, got):
+    """what happened to the names: 'case-folded' when every wrong name matches an expected/observed one up to case"""
+    missing = [k for k in want if k not in got]
+    extra = [k for k in got if k not in want]
+    if missing or extra:
+        lw, lg = set(k.lower() for k in want), set(k.lower() for k in got)
+        if all(k.lower() in lg for k in missing) and all(k.lower() in lw for k in extra):
+            return "case-folded"
+        return "lost-or-extra"
+    return "value"
+
+
+def gen_names(quick):
+    fnames = ("behave.ini", "setup.cfg", TOML_NAME) if quick else FILE_NAMES
+    wheres = ("cwd",) if quick else ("cwd", "home")
+    val = {}
+    for fam in NAME_FAMILIES + (PUNCT_NAMES, TOML_ONLY_NAMES):
+        for i, nm in enumerate(fam):
+            val[nm] = str(11 * (i + 1))
+    for fam in NAME_FAMILIES:
+        for nm in fam:                                           # -D only
+            yield {"t": "names", "ud_cmd": (("sep", "%s=7" % nm),), "probe": fam}
+        yield {"t": "names", "ud_cmd": tuple(("sep", "%s=%d" % (nm, 7 + i)) for i, nm in enumerate(fam)), "probe": fam}
+    for fname in fnames:
+        for where in wheres:
+            seps = (" = ",) if (quick or fname == TOML_NAME) else (" = ", "=", "\t=\t", " : ")
+            for fam in NAME_FAMILIES:
+                for sep in seps:
+                    f = fspec(where, fname, [], [(nm, val[nm]) for nm in fam])            # all spellings in one file
+                    if sep != " = ":
+                        f["sep"] = sep
+                    yield {"t": "names", "files": (f,), "probe": fam}
+                for i, nm in enumerate(fam):
+                    f = fspec(where, fname, [], [(nm, val[nm])])                          # one spelling only
+                    yield {"t": "names", "files": (f,), "probe": fam}
+                    for other in fam:                                                     # file x -D: 3 x 3
+                        yield {"t": "names", "files": (f,), "ud_cmd": (("sep", "%s=7" % other),), "probe": fam}
+                        f2 = fspec("home" if where == "cwd" else "cwd", "behave.ini" if fname != "behave.ini"
+                                   else "tox.ini", [], [(other, "55")])                   # two files: 3 x 3
+                        yield {"t": "names", "files": (f, f2), "probe": fam}
+            extra = PUNCT_NAMES + (TOML_ONLY_NAMES if fname == TOML_NAME else ())
+            f = fspec(where, fname, [], [(nm, val[nm]) for nm in extra])
+            yield {"t": "names", "files": (f,), "probe": extra}
+            yield {"t": "names", "files": (f,), "ud_cmd": (("sep", "%s=7" % extra[0]), ("sep", "%s=8" % extra[-1])),
+                   "probe": extra}
+            # formatter / runner aliases: all spellings in one file; one spelling, used on the command line
+            yield {"t": "names", "files": (dict(fspec(where, fname), fa=FMT_FAMILY, ra=RUN_FAMILY),), "probe": ()}
+            for i in range(3):
+                f = dict(fspec(where, fname), fa=(FMT_FAMILY[i],), ra=(RUN_FAMILY[i],))
+                yield {"t": "names", "files": (f,), "probe": (),
+                       "cmd": (("format", (FMT_FAMILY[i][0],), ("sep", "-f")), ("runner", RUN_FAMILY[i][0], ("sep", "-r")))}
+                f2 = dict(fspec("home" if where == "cwd" else "cwd", "behave.ini" if fname != "behave.ini" else "tox.ini"),
+                          fa=(FMT_FAMILY[(i + 1) % 3],), ra=(RUN_FAMILY[(i + 1) % 3],))
+                yield {"t": "names", "files": (f, f2), "probe": ()}
+    for nm in TOML_ONLY_NAMES + PUNCT_NAMES:
+        yield {"t": "names", "ud_cmd": (("sep", "%s=7" % nm),), "probe": (nm,)}
+
+
+def run_names(spec):
+    reset_state()
+    spec = dict(spec)
+    probe = spec.pop("probe", ())
+    obs = build(spec)
+    v = []
+    compare(spec, obs, v, "names")
+    fk = file_kinds(spec)
+    if "exc" in obs:
+        reset_state()
+        return {"v": v, "dg": digestable(obs), "out": ("names", "exc")}
+    files = spec.get("files", ())
+    # ---- userdata: exact names; -D overrides the same spelling only
+    want = {}
+    for f in files:
+        for k, val in (f.get("ud") or ()):
+            want.setdefault(k, set()).add(val)                  # same spelling in two files: either
+    for form, text in spec.get("ud_cmd", ()):
+        k, val = ref_define(text)[0]
+        want[k] = {val}
+    got = obs["userdata"]
+    nfiles = len([f for f in files if f.get("ud")])
+    placement = ("file" if nfiles == 1 else "two-files" if nfiles else "") + ("+D" if spec.get("ud_cmd") else "")
+    bad = [k for k in want if k not in got or got[k] not in want[k]] + [k for k in got if k not in want]
+    if bad:
+        k = sorted(bad)[0]
+        v.append(({"subcheck": "names", "clause": "name-preserved" if any(x not in got or x not in want for x in bad)
+                   else "define-overrides-same-spelling-only", "section": "userdata",
+                   "filekind": names_filekind(spec), "rewrite": rewrite_class(want, got)},
+                  "userdata expected exactly %s, observed %r (placement %s)  [files: %s; args: %r]"
+                  % ({k: sorted(x) for k, x in sorted(want.items())}, got, placement or "-D", describe_files(spec),
+                     list(obs["args"]))))
+    # ---- typed getter finds the exactly spelled name (all values are integers as text)
+    ud = obs["cfg"].userdata
+    for nm in probe:
+        try:
+            r = ud.getint(nm, -1)
+        except Exception as e:
+            r = "EXC:" + type(e).__name__
+        acc = [int(x) for x in want[nm]] if nm in want else [-1]
+        if r not in acc and not bad:
+            v.append(({"subcheck": "names", "clause": "getter-exact-name", "section": "userdata",
+                       "filekind": names_filekind(spec)},
+                      "userdata.getint(%r, -1) = %r, expected %r; userdata %r  [files: %s; args: %r]"
+                      % (nm, r, acc, got, describe_files(spec), list(obs["args"]))))
+    # ---- formatter / runner aliases
+    from behave.formatter import _registry as _freg
+    for key, attr, sect in (("fa", "more_formatters", "formatters"), ("ra", "more_runners", "runners")):
+        wanta = {}
+        for f in files:
+            for k, val in (f.get(key) or ()):
+                wanta.setdefault(k, set()).add(val)
+        gota = obs[attr]
+        bada = [k for k in wanta if k not in gota or gota[k] not in wanta[k]] + [k for k in gota if k not in wanta]
+        effect = None
+        if not bada and sect == "formatters":
+            missing = [k for k in wanta if k not in dict.keys(_freg._formatter_registry)]
+            stray = [k for k in dict.keys(_freg._formatter_registry) if k not in _SNAP["formatters"] and k not in wanta]
+            if missing or stray:
+                effect = "formatter registry: missing %r, unexpected %r" % (missing, stray)
+        if not bada and sect == "runners":
+            ra = obs["runner_aliases"]
+            missing = [k for k in wanta if k not in ra or ra[k] not in wanta[k]]
+            stray = [k for k in ra if k not in wanta and k != "default"]
+            if missing or stray:
+                effect = "config.runner_aliases %r: missing %r, unexpected %r" % (ra, missing, stray)
+        if bada or effect:
+            k = sorted(bada)[0] if bada else sorted(wanta)[0]
+            v.append(({"subcheck": "names", "clause": "name-preserved", "section": sect,
+                       "filekind": names_filekind(spec), "rewrite": rewrite_class(wanta, gota) if bada else "effect"},
+                      "config.%s expected exactly %s, observed %r%s  [files: %s; args: %r]"
+                      % (attr, {k: sorted(x) for k, x in sorted(wanta.items())}, gota,
+                         "; " + effect if effect else "", describe_files(spec), list(obs["args"]))))
+    dg = digestable(obs)
+    reset_state()
+    nt = ("names", repr(spec)) if (want or any(f.get("fa") or f.get("ra") for f in files)) else None
+    return {"v": v, "nt": nt, "out": ("names", digest(sorted(got.items())), digest(sorted(obs["more_formatters"]))),
+            "dg": dg}
 
 
 # ---- rebuild differential -----------------------------------------------------
@@ -1605,6 +1802,8 @@ def run(ctx):
               % sorted(src_names ^ set(CONSUMERS)))
     ctx.sweep(run_consumer, gen_consumers(quick), chunk=32,
               name="userdata consumers built at construction (reporters, formatter)")
+    ctx.sweep(run_names, gen_names(quick), chunk=32,
+              name="case-sensitive names: userdata, formatter and runner aliases")
     ctx.sweep(run_define, gen_defines(), chunk=8, name="-D grammar")
     ctx.sweep(run_build, gen_userdata_override(quick), chunk=32, name="userdata file vs -D")
     getters = [(g, val, dg, via) for g in ("getint", "getfloat", "getbool", "getas_int") for val in GETTER_VALUES
